@@ -249,6 +249,35 @@ def spaceshipPoints (r1 r2 : IntTy) (u1 u2 : PtUnit) (v1 v2 : Int) : Res Orderin
 
 def spaceshipCompiles (r1 r2 : IntTy) (u1 u2 : PtUnit) : Bool := pointOpsCompile r1 r2 u1 u2
 
+/-! ### Point ± quantity (quantity_point.hh:370-387) -/
+
+/-- `detail::borrow_origin<UnitP>(UnitQ{})` = `UnitP{} * unit_ratio(UnitQ, UnitP)`: the quantity's scale with the
+point unit's origin. -/
+def borrowOrigin (uP : PtUnit) (sq : URat) : PtUnit := ⟨sq, uP.oc, uP.ou⟩
+
+/-- Unit of `p ± q`: `CommonPointUnitT<UnitP, borrow_origin<UnitP>(UnitQ)>`. -/
+def shiftResultUnit (uP : PtUnit) (sq : URat) : PtUnit := commonPointUnit uP (borrowOrigin uP sq)
+
+inductive ShiftOp where
+  | pPlusQ | qPlusP | pMinusQ
+deriving DecidableEq, Repr
+
+/-- `p + q`, `q + p`, `p - q` for a `QuantityPoint<UnitP, rp>` and a `Quantity<UnitQ, rq>` (scale `sq`):
+`using_common_point_unit(p, q.as(borrow_origin<UnitP>(UnitQ{})), plus/minus)` — both operands are `rep_cast` to
+`R = common_type_t<rp, rq>` and converted (`.as(u)`, policy-checked) to the result unit; then the same-type friend
+`QuantityPoint{p.x_ ± d}` computes in `decltype(R{} ± R{})` and converts back to `R`. -/
+def pointShift (op : ShiftOp) (rp rq : IntTy) (uP : PtUnit) (sq : URat) (vp vq : Int) : ApplyResult :=
+  let R := IntTy.common rp rq
+  let cu := shiftResultUnit uP sq
+  let kq := (ratio sq cu.scale).1
+  andThen (andThen (repCastPoint rp R uP vp) fun x => inImplicit R uP cu x) fun x =>
+  andThen (andThen (asRep rq rq 1 vq) fun a => andThen (repCast rq R a) fun b => asRep R R kq b) fun d =>
+  let s := match op with
+    | .pPlusQ => addIn R.promote x d
+    | .qPlusP => addIn R.promote d x
+    | .pMinusQ => subIn R.promote x d
+  andThen (liftStep s) fun z => repCast R.promote R z
+
 /-! ### Statement-level side conditions -/
 
 /-- All intermediates of the explicit conversion are representable (no UB, wrap, or narrowing). -/
